@@ -7,7 +7,8 @@ float32 by the generated `channel_to_energy`, exactly as numpy 2 does).  So ever
 comparison of keys, and the model is exact.
 
 `mask` is the conjunction the code builds in `select()`:
-time `[tmin, tmax)` (or, if no time bound is given, phase `[phasemin, phasemax)`), each optionally inverted; energy
+time `[tmin, tmax)` (or, if no time bound is given, phase `[phasemin, phasemax)`), each optionally inverted (or, if neither is given, the
+boolean array of `--mask`); energy
 `[emin, emax)` on the PI-channel centre or on the Monte Carlo energy, optionally inverted; closed cone/annulus radii on
 the separation; region flag (optionally inverted); every listed source id (they are *and*-ed).
 `validate` is `_validate()` (first failing rule).
@@ -25,6 +26,8 @@ structure Row where
   mcInReg : Bool
   src : Int
   tag : Nat
+  /-- the entry of the boolean array handed over with `--mask` (direct selection) -/
+  inMask : Bool := true
   deriving Repr, DecidableEq
 
 structure Cfg where
@@ -43,6 +46,8 @@ structure Cfg where
   useReg : Bool := false
   reginvert : Bool := false
   srcids : List Int := []
+  /-- `--mask <file>`: select with a boolean array read from a file (used when neither a time nor a phase bound is given) -/
+  useMask : Bool := false
   deriving Repr
 
 /-- `x >= bound` if the bound is given -/
@@ -60,7 +65,7 @@ def phaseMask (c : Cfg) (r : Row) : Bool := xor (geOpt c.pmin r.phase && ltOpt c
 
 /-- the time/phase stage of `select()` -/
 def firstMask (c : Cfg) (r : Row) : Bool :=
-  if timeSelected c then timeMask c r else if phaseSelected c then phaseMask c r else true
+  if timeSelected c then timeMask c r else if phaseSelected c then phaseMask c r else if c.useMask then r.inMask else true
 
 def energyMask (c : Cfg) (r : Row) : Bool :=
   let e := if c.mc then r.mcEnergy else r.energy
